@@ -1,4 +1,4 @@
-import TinsModel.Wire.App.Theorems
+import TinsModel.Wire.App.TheoremsFixed
 /- DHCP: C01 (option loop safe for every input, fuel suffices), C02 (`size_` equals the bytes the writer emits) -/
 namespace Tins.Wire.App
 open Tins Tins.Wire
